@@ -242,6 +242,12 @@ func TestC16(t *testing.T) {
 			{"update-to-1ns", mk("update-to-1ns", nil), upd("update-to-1ns", &pubsubpb.RetryPolicy{MinimumBackoff: dur(1)})},
 			{"huge", mk("huge", &pubsubpb.RetryPolicy{MinimumBackoff: dur(1 << 62), MaximumBackoff: dur(1 << 62)}), nil},
 		}
+		// endpoints the pusher cannot even build a request for
+		for k, bad := range []string{"%%%", "http://[::1", "http://127.0.0.1:1/\x7f", "HTTP://127.0.0.1:1", "://", "http://user:pa ss@127.0.0.1:1/", "mailto:x@y"} {
+			c := mk(fmt.Sprintf("endpoint-%d", k), nil)
+			c.PushConfig.PushEndpoint = bad
+			cases = append(cases, pushCase{fmt.Sprintf("endpoint-%d", k), c, nil})
+		}
 		for _, pc := range cases {
 			line, _ := json.Marshal(map[string]any{"push": pc.name})
 			reqLog.Write(append(line, '\n'))
